@@ -50,7 +50,12 @@ def run_mutants(pids):
                 open(path, "w").write(src.replace(old, new))
                 env = dict(os.environ, PYVC_REPO=dst, PYVC_NO_BOUNDED="1", PYVC_EVIDENCE_DIR=os.path.join(tmp, "ev"))
                 cmd = [os.path.join(VERIF, "check"), pid] + (["--only", only] if only else [])
-                out = subprocess.run(cmd, capture_output=True, text=True, env=env)
+                try:
+                    out = subprocess.run(cmd, capture_output=True, text=True, env=env, timeout=900)
+                except subprocess.TimeoutExpired:
+                    print(f"FAIL {pid} {label}: check did not finish within 900 s")
+                    bad += 1
+                    continue
                 refuted = "VIOLATION" in out.stdout
                 undecided = "NOTE undecided" in out.stdout and "unsupported" in out.stdout or "solver unknown" in out.stdout
                 got = "refute" if refuted else ("undecided" if undecided else "hold")
